@@ -41,12 +41,35 @@ def main():
     from decaylanguage.modeling.amplitudechain import AmplitudeChain  # noqa: PLC0415
     from decaylanguage.modeling.goofit import GooFitChain, GooFitPyChain  # noqa: PLC0415
 
+    # The process' standard output is pointed ONCE at a file that stands for the terminal and is never re-bound by this runner afterwards
+    # (a per-call redirect_stdout would put sys.stdout back after every call and so repair - and hide - a call that leaves it re-bound):
+    # what a call printed is what arrived in that file while the call ran.
+    import tempfile  # noqa: PLC0415
+
+    terminal = tempfile.TemporaryFile("w+", encoding="utf-8", dir=workdir)
+    json_out = sys.stdout
+    sys.stdout = terminal
+
+    class _Seg:
+        def __init__(self):
+            terminal.flush()
+            self.start = terminal.seek(0, os.SEEK_END)
+
+        def getvalue(self):
+            with contextlib.suppress(Exception):
+                sys.stdout.flush()
+            terminal.flush()
+            terminal.seek(self.start)
+            txt = terminal.read()
+            terminal.seek(0, os.SEEK_END)
+            return txt
+
     out = []
     for fidx, entry in hist:
         path = os.path.join(workdir, f"pool{fidx}.txt")
-        buf = io.StringIO()
+        buf = _Seg()
         try:
-            with contextlib.redirect_stdout(buf):
+            with contextlib.nullcontext():
                 if entry == "read":
                     r = {"read": canon_read(AmplitudeChain.read_ampgen(path))}
                 elif entry == "cpp":
@@ -81,7 +104,8 @@ def main():
             r = {"raised": f"{type(e).__name__}: {e}", "traceback": traceback.format_exc(limit=5)}
         r["stdout"] = "" if entry.endswith("_print") else buf.getvalue()[:2000]      # (for the printing entries stdout *is* the result)
         out.append(r)
-    sys.stdout.write(json.dumps(out))
+    json_out.write(json.dumps(out))
+    json_out.flush()
 
 
 if __name__ == "__main__":
